@@ -1,8 +1,9 @@
 #!/usr/bin/env bash
 # Robustness self-test, second evaluation set: the 30 independently written behaviour-preserving
 # ("harmless") rewrites of tools/harmless2/B{1,2,3,4,5}/patch{1..6}.diff (each with a README.md that
-# explains why it preserves behaviour) must not raise an alarm in the tie between the hand-written
-# model and the translated Go text.
+# explains why it preserves behaviour) — plus the 6 rewrites of tools/harmless2/B6 written in the third
+# robustness pass for the newest tie modules (GSAP, OSAP, BUP, ReadFrom; notes/robust3.md) — must not
+# raise an alarm in the tie between the hand-written model and the translated Go text.
 #
 # For every patch:
 #   1. apply it to a scratch copy of /repo,
@@ -43,6 +44,9 @@ expected_refused() {
 # (closure below, computed from the import lines of LzProofs/*.lean); the script checks both: the set of modules that
 # fail is exactly that closure, and the modules that report errors of their own are exactly the roots.
 # One line of reason per remaining alarm; details in notes/robust.md (B1–B3) and notes/robust2.md (B4, B5).
+# Third pass (notes/robust3.md): B3/patch6 → GenOSAPInit and the five alarms of the new set B6 (patch1 → GenGSAPParse, patch3 →
+# GenOSAPPath, patch4 → GenOSAPParseLemmas, patch5 → GenBUPParseLemmas, patch6 → GenPBufReadFrom) were shape-dependent proofs
+# and are repaired; no entry here for them.
 expected_roots() {
   case "$1" in
     # STRUCTURAL: the doubling-copy loop moves into the new helper appendMatch: D08/D09 (GenBufPropsDCopy) are proved by
@@ -123,7 +127,7 @@ f="$(build_all "$LEAN0" "$SCRATCH/base.log")"
 echo "   ok: all of them build"
 
 PATCHES=""
-for b in B1 B2 B3 B4 B5; do for n in 1 2 3 4 5 6; do
+for b in B1 B2 B3 B4 B5 B6; do for n in 1 2 3 4 5 6; do
   case " ${ONLY:-$b/patch$n} " in *" $b/patch$n "*) PATCHES="$PATCHES $b/patch$n" ;; esac
 done; done
 
